@@ -306,6 +306,11 @@ def r_ordered(prog, tier):
                     and n.value.id not in f.locals:
                 continue        # the accessor function trees.children, not a child list
             par = parents.get(n)
+            n0 = n
+            # list(x.children) / tuple(...) is a copy in the same order: what matters is what is done with the copy
+            while isinstance(par, ast.Call) and isinstance(par.func, ast.Name) and par.func.id in ('list', 'tuple') \
+                    and par.args == [n] and not par.keywords:
+                n, par = par, parents.get(par)
             ctx = _raw_context(n, par, parents)
             if ctx is None:
                 continue
@@ -323,9 +328,9 @@ def r_ordered(prog, tier):
             if not ok:
                 # a list known to hold at most one element has no order
                 from ..core import facts_for
-                X = unparse(n.value)
+                X = unparse(n0.value)
                 forms = ['len(%s.children)' % X, 'len(trees.children(%s))' % X, 'len(children(%s))' % X]
-                for fa in facts_for(f, n):
+                for fa in facts_for(f, n0):
                     if fa[0] == 'cmp' and ((fa[1] in forms and fa[2] == '==' and fa[3] in ('0', '1'))
                                            or (fa[1] in forms and fa[2] in ('<=',) and fa[3] in ('0', '1'))
                                            or (fa[1] in forms and fa[2] == '<' and fa[3] in ('1', '2'))):
@@ -333,7 +338,7 @@ def r_ordered(prog, tier):
                     if fa[0] == 'opaque' and fa[2] is False and fa[1] in ('has_children(%s)' % X, 'trees.has_children(%s)' % X):
                         ok, why = True, 'no children here'
             if not ok and isinstance(par, ast.For) and par.iter is n:
-                sens = _order_sensitive(par, unparse(n), prog, f)
+                sens = _order_sensitive(par, unparse(n0), prog, f)
                 if sens is None:
                     ok, why = None, 'for-loop over the stored child list whose body could not be shown to depend on the order'
                 else:
@@ -346,7 +351,7 @@ def r_ordered(prog, tier):
             obs.append(Ob('R-ORDERED/RAW', f.fq, 'stored child order is not observed: `%s`'
                           % unparse(par if par is not None else n)[:80], ok, why,
                           construct='raw:' + unparse(par if par is not None else n),
-                          line=n.lineno, nontrivial=not ok or 'order' in why))
+                          line=n0.lineno, nontrivial=not ok or 'order' in why))
     return obs, {'ordered_accessor_call_sites': ncalls}
 
 
@@ -546,6 +551,15 @@ def r_levels(prog, tier):
         rev = [n for n in stores if isinstance(n.ast, ast.Assign) and unparse(n.ast.targets[0].slice) == loopv]
         if app and rev:
             together = all(cfg.always_with(a.id, r.id) and cfg.always_with(r.id, a.id) for a in app for r in rev)
+            if not together and len(rev) == 1 and rev[0].loops and all(a.loops and a.loops[-1] == rev[0].loops[-1] for a in app):
+                # the same filing written once per branch: taken together, one of them runs whenever the other table is written
+                r0, hdr = rev[0], rev[0].loops[-1]
+                aids = frozenset(a.id for a in app)
+                after = all(cfg.dominates(r0.id, a.id) for a in app) and hdr not in cfg.reach(r0.id, avoid=aids)
+                before = all(cfg.dominates(a.id, r0.id) or r0.id in cfg.reach(a.id, avoid=frozenset([hdr])) for a in app) \
+                    and r0.id not in cfg.reach(hdr, avoid=aids | {hdr}) and all(hdr not in cfg.reach(a.id, avoid=frozenset([r0.id])) for a in app)
+                if after or before:
+                    together = True
             cond = None
             if not together:
                 for r in rev:
